@@ -55,22 +55,36 @@ HUBS = ["channels are abstracted to identity + closed flag; the contents of a ch
         "a blocking select is woken by closing a channel iff it has a receive case on that channel (Go runtime semantics, assumed)",
         "sync.Once.Do runs its function at most once, at the call site; sync.Mutex operations are no-ops (sequential reasoning only)"]
 
+KESWARM = f("s/p2pkeswarm", "(*Swarm).getFullAddr$1$1", "(*Swarm).handleMessage$1$1", "(*Swarm).handleMessage", "(*Swarm).getFullAddr")
+DHT = f("p/kademlia", "dhtIterate", "DHTPut$1", "DHTGet$2", "DHTJoin", "DHTPut", "DHTGet", "DHTFindNode")
+IDS = f("", "(*PeerID).UnmarshalText") + f("f/x509", "EqualPublicKeys") + f("s/p2pkeswarm", "DefaultFingerprinter") + f("s/quicswarm", "DefaultFingerprinter")
+
 PROPS = [
     dict(id="C01", functions=VEC + FRAG_WIRE + FRAG_AGG + FRAG_SEND + HDR + COLL + MB_SEND, assumptions=COMMON + BINARY),
     dict(id="C02", functions=SESSION + READERS + f("p/p2pke", "(*Channel).Deliver$1", "(*Channel).Send$1"), assumptions=COMMON + CRYPTO),
     dict(id="C03", functions=SESSION + READERS, assumptions=COMMON + CRYPTO),
+    dict(id="C04", functions=KESWARM + f("p/p2pke", "(*Channel).checkKey", "(*Channel).onReadySession", "(*Channel).newResp"),
+         assumptions=COMMON + CRYPTO + ["the channel table of p2pkeswarm (a map under a mutex) and p2pke.Channel's entry points are used through trusted / frame-assumed contracts",
+                                        "fingerprinter and whitelist are arbitrary pure callbacks"]),
     dict(id="C05", functions=CHANNEL + f("p/p2pke", "(*Session).IsReady", "(*Session).Deliver", "NewSession"), assumptions=COMMON + CRYPTO),
     dict(id="C06", functions=SESSION, assumptions=COMMON + CRYPTO),
     dict(id="C07", functions=CHANNEL, assumptions=COMMON + CRYPTO + ["time.Time modelled as an integer instant"]),
     dict(id="C08", functions=MUX + FRAG_WIRE + FRAG_AGG + HDR + BITMAP + COLL, assumptions=COMMON + BINARY),
     dict(id="C09", functions=VEC + FRAG_SEND + f("s/fragswarm", "newMessage", "appendUvarint") + MB_SEND + HDR + f("p/p2pmux", "(*muxedSwarm).MTU") + f("s/vswarm", "(*SecureRealm).tell", "(*SecureRealm).ask"), assumptions=COMMON + BINARY),
     dict(id="C10", functions=FRAG_WIRE + FRAG_AGG + BITMAP + COLL, assumptions=COMMON + BINARY),
-    dict(id="C11", functions=ASKHUB + f("p/p2pmux", "(*muxCore).serveLoop$1$1") + f("s/vswarm", "(*SecureRealm).ask"), assumptions=COMMON + HUBS),
+    dict(id="C11", functions=ASKHUB + f("p/p2pmux", "(*muxCore).serveLoop$1$1") + f("s/vswarm", "(*SecureRealm).ask") + f("p/mbapp", "(*ask).complete") + f("s/sshswarm", "(*Swarm).Ask"),
+         assumptions=COMMON + HUBS + ["sshswarm's connection table and SSH transport are behind trusted contracts (getConn, Conn.Send)"]),
     dict(id="C12", functions=TELLHUB + ASKHUB, assumptions=COMMON + HUBS),
     dict(id="C13", functions=TELLHUB + ASKHUB, assumptions=COMMON + HUBS),
     dict(id="C15", functions=MUX + DISPATCH, assumptions=COMMON + BINARY + ["the channel table (sync.Map) only holds swarms built by newMuxedSwarm: trusted contract on muxCore.getSwarm"]),
+    dict(id="C17", functions=IDS, assumptions=COMMON + ["encoding/base64 Decode/Encode write only their destination; EncodedLen/DecodedLen are pure (assumed)",
+         "x509.MarshalPublicKey (ASN.1) is behind a trusted contract: the marshal/parse round trip is not decided",
+         "crypto/subtle.ConstantTimeCompare returns 1 exactly for equal byte strings (model)"]),
     dict(id="C18", functions=CACHE + KAD_LAWS, assumptions=COMMON + ["time.Time modelled as an integer instant (IsZero <=> 0, Before/After = </>)",
          "map model: domain/value/cardinality arrays per map object; a non-empty map has a key; range over a map produces each present key at most once and all of them at exhaustion"]),
+    dict(id="C20", functions=DHT + KAD_LAWS, assumptions=COMMON + ["callbacks (Ask, Validate, AddPeer) are arbitrary but do not touch the iteration's local state",
+         "slices.SortFunc permutes its slice and has no other effect (model)", "termination is not decided",
+         "map keys of array type are compared element-wise (tuple encoding)"]),
     dict(id="C19", functions=KAD_LAWS + f("p/kademlia", "(*Cache).bucketIndex"), assumptions=COMMON),
 ]
 
